@@ -319,4 +319,9 @@ def render (rotate : Int) (mediabox : Rect) (pt : Point) : Rect × Matrix :=
   let (ex, fy) := apply_matrix_pt ctm pt
   (begin_page_bbox ctm mediabox, (a, b, c, d, ex, fy))
 
+/-- `extract_text_to_fp(rotation=…)`: the box of the `LTPage` after the extra rotation was added to
+the page's (already reduced) Rotate. -/
+def rotatedBox (rotate rotation : Int) (mediabox : Rect) : Rect :=
+  begin_page_bbox (page_ctm (add_rotation rotate rotation) mediabox) mediabox
+
 end PdfVerif.PageTree
